@@ -115,19 +115,19 @@ SRC_TIE = {
     "C15": ["decl", "factory"],
     "C18": ["diagram"],
     "C10": ["store", "smInit"],
-    "C12": ["smInit", "registerCallbacks", "addListener", "registry"],
+    "C12": ["smInit", "registerCallbacks", "addListener", "registry", "specs"],
     "C17": ["getState", "setState", "registerCallbacks", "addListener"],
     "C09": ["visitConnected", "classCheck", "metaInit", "transitionInit", "decl"],
     "C01": ["triggerSync", "triggerAsync"] + _W + _G + ["decl"],
-    "C02": ["activateSync", "activateAsync"] + _W + _A + ["registry", "registerCallbacks", "addListener", "decl"],
+    "C02": ["activateSync", "activateAsync"] + _W + _A + ["registry", "registerCallbacks", "addListener", "decl", "specs"],
     "C03": ["processSync", "processAsync"] + _E + ["engBase"],
     "C04": ["activateSync", "activateAsync", "processSync", "processAsync"] + _A,
     "C06": ["processSync", "processAsync", "engBase"],
     "C05": ["activateSync", "activateAsync", "triggerSync", "triggerAsync", "processSync", "processAsync"] + _W + _G + _A,
-    "C08": _W + _G + ["parser"],
+    "C08": _W + _G + ["parser", "specs"],
     "C11": ["triggerSync", "triggerAsync", "engineStart", "store", "smInit", "engBase"],
     "C14": ["activateSync", "activateAsync", "triggerSync", "triggerAsync", "processSync", "processAsync"] + _W + _A
-           + ["registerCallbacks", "addListener"],
+           + ["registerCallbacks", "addListener", "specs"],
 }
 TIE_MOD = "SMV.Src.Tie"
 TIE_MODS = ["SMV.Src.Tie", "SMV.Src.TieExpr"]
@@ -135,7 +135,8 @@ TIE_MODS = ["SMV.Src.Tie", "SMV.Src.TieExpr"]
 TIE_EXTRA = {"C07": ["SMV.Src.TieBind", "SMV.Src.TieEng"], "C03": ["SMV.Src.TieEng"], "C06": ["SMV.Src.TieEng"],
              "C16": ["SMV.Src.TieEng", "SMV.Src.TieFactory"], "C09": ["SMV.Src.TieCheck", "SMV.Src.TieDecl"], "C01": ["SMV.Src.TieDecl"],
              "C15": ["SMV.Src.TieDecl", "SMV.Src.TieFactory"], "C18": ["SMV.Src.TieDiagram"], "C10": ["SMV.Src.TieStore"],
-             "C11": ["SMV.Src.TieStore", "SMV.Src.TieEng"], "C12": ["SMV.Src.TieStore", "SMV.Src.TieReg"], "C02": ["SMV.Src.TieReg", "SMV.Src.TieStore", "SMV.Src.TieDecl"], "C14": ["SMV.Src.TieStore"], "C13": ["SMV.Src.TieStore", "SMV.Src.TieDecl"],
+             "C11": ["SMV.Src.TieStore", "SMV.Src.TieEng"], "C12": ["SMV.Src.TieStore", "SMV.Src.TieReg", "SMV.Src.TieSpec"], "C02": ["SMV.Src.TieReg", "SMV.Src.TieStore", "SMV.Src.TieDecl", "SMV.Src.TieSpec"],
+             "C14": ["SMV.Src.TieStore", "SMV.Src.TieSpec"], "C08": ["SMV.Src.TieSpec"], "C13": ["SMV.Src.TieStore", "SMV.Src.TieDecl"],
              "C17": ["SMV.Src.TieStore"]}
 
 
